@@ -81,6 +81,12 @@ def _decide(args, P, seed, scratch, t0):
     prop = args.prop
     tier = args.tier
     known = load_known()
+    # replay files of earlier runs of this property are stale
+    rd = os.path.join(VERIF, 'evidence', 'replays')
+    if os.path.isdir(rd):
+        for f in os.listdir(rd):
+            if f.startswith(prop + '-'):
+                os.remove(os.path.join(rd, f))
     units = list(P.get('verus_units', []))
     if tier == 'thorough':
         units += P.get('verus_units_thorough', [])
@@ -117,8 +123,27 @@ def _decide(args, P, seed, scratch, t0):
                            extracted={f['name']: f['sha256_rewritten'] for f in r.functions}),
                       open(os.path.join(VERIF, 'baseline', r.unit + '.json'), 'w'), indent=1, sort_keys=True)
             base = load_baseline(r.unit)
-        for u in r.undecided:
-            undecided.append('%s: %s' % (r.unit, u))
+        changed = base is not None and not all(base['extracted'].get(f['name']) == f['sha256_rewritten'] for f in r.functions)
+        rlimit_only = r.undecided and all(u.startswith('rlimit/timeout') for u in r.undecided)
+        tie_broken = False
+        if rlimit_only and changed and not r.failures:
+            # the solver ran out of resources on changed code: undecided, unless the real code can be
+            # shown to misbehave on a concrete input
+            try:
+                cex = vreplay.search_unit(REPO, scratch, r.unit, seed)
+            except Exception as e:
+                cex = None
+                undecided.append('%s: counterexample search failed: %s' % (r.unit, e))
+            if cex:
+                tie_broken = True
+                failures.append(dict(backend='verus', unit=r.unit, fn='?', kind='undischarged',
+                                     clause='solver resource limit on changed code; failing input found on the real code',
+                                     obligation='%s::undischarged(resource limit)::failing input found' % r.unit,
+                                     message=r.undecided[0][:300], rendered='\n'.join(r.undecided), in_extracted_fn=True,
+                                     failing_input=cex))
+        if not tie_broken:
+            for u in r.undecided:
+                undecided.append('%s: %s' % (r.unit, u))
         if base is None:
             undecided.append('%s: no committed baseline' % r.unit)
         else:
